@@ -187,6 +187,20 @@ def run(ctx):
         ctx.ob('R10.4', 'cencoding.read_list:element-type-%d-accepted' % nib, nib in lr,
                'read_list accepts %s' % sorted(lr), m.loc(rl))
 
+    # double: the reader's arm casts the first *byte* to double instead of loading through a double*
+    dbl_fields = [(s_, f_.name) for s_ in sorted(idl.reachable(ROOTS)) for f_ in idl.structs[s_].values() if f_.base == 'double']
+    rd_src = ' '.join(norm(x) for x in ast.walk(rt) if isinstance(x, ast.Assign) and '_cast(' in norm(x) and 'double' in norm(x))
+    reads_through_pointer = "_cast('double*'" in rd_src
+    ctx.ob('R10.4', 'cencoding.read_thrift:double-arm-loads-8-bytes-or-no-double-field-exists', reads_through_pointer or not dbl_fields,
+           'reader double arm: `%s` (casts one byte; from_buffer of a compact double 1.5 gives 0.0). Harmless only while no field '
+           'reachable from FileMetaData/PageHeader is a double: %s' % (rd_src[:80], dbl_fields or 'none today'), m.loc(rt))
+    if not reads_through_pointer:
+        ctx.note('R10.4 note: read_thrift decodes wire type 7 (double) as <double>byte, not through a double*; the Parquet IDL '
+                 'declares no double field, so no metadata value is affected')
+
+    from . import c11
+    c11.r117(ctx, 'R10.4c')
+
     # R10.5 ----------------------------------------------------------------
     for s in sorted(idl.reachable(ROOTS)):
         for f in idl.structs[s].values():
